@@ -315,6 +315,31 @@ def rule_p5(repo, col):
                    "the wrong output is unified with the caller's value" % (ref, srcn), function=fn)
 
 
+def rule_p6(repo, col):
+    """py2pl wraps numbers unchanged: Constant(<the argument itself>) - no int()/float()/round conversion and no re-binding on the way"""
+    from .. import dtable
+
+    f = repo.func("problog.pypl", "py2pl")
+    m = f.module
+    d = f.params[0]
+    paths = dtable.extract(f.node, opaque_loops=True)
+    n = 0
+    for typ in ("int", "float"):
+        mapping = [("type(%s) == %s" % (d, t), t == typ) for t in ("int", "float", "str", "list", "tuple", "bool")] + \
+                  [("type(%s) in (int, float)" % d, True), ("isinstance(%s, (int, float))" % d, True), ("isinstance(%s, Term)" % d, False),
+                   ("isinstance(%s, %s)" % (d, typ), True)]
+        ps = [p_ for p_ in dtable.compatible(paths, mapping) if p_.end == "return"]
+        ps = [p_ for p_ in ps if any(s_ in ("type(%s) == %s" % (d, typ), "type(%s) in (int, float)" % d, "isinstance(%s, (int, float))" % d) and t for s_, t, _ in p_.conds)]
+        if not ps:
+            raise AnalysisError("py2pl: no path for a %s" % typ)
+        for p_ in ps:
+            n += 1
+            col.decide("P6", m, f.node, p_.value == "Constant(%s)" % d, "a Python %s is wrapped unchanged" % typ,
+                       "py2pl returns %s for a Python %s: numbers must be wrapped as Constant(%s) without conversion - 2.0 and 2 are different Prolog terms, and pl2py must give back "
+                       "the value it was given" % (p_.value, typ, d), construct="py2pl: %s -> %s" % (typ, p_.value), function="py2pl")
+    col.floor("P6.number_paths", n, 2)
+
+
 def run(repo, col):
     col.rule("P1", "constructor coverage py2pl <-> pl2py")
     col.rule("P2", "string codec removes exactly the delimiter pair that was added")
@@ -326,3 +351,5 @@ def run(repo, col):
     rule_p3(repo, col)
     rule_p4(repo, col)
     rule_p5(repo, col)
+    col.rule("P6", "numbers are wrapped unchanged")
+    rule_p6(repo, col)
